@@ -1,7 +1,7 @@
 (* C03 -- each accepted call runs exactly once and its caller gets its own reply.  Statements only. *)
-From Coq Require Import List Arith.
+From Coq Require Import List Arith Bool.
 Import ListNotations.
-From IT Require Import Sdpl.IR Sdpl.Elab Sdpl.Wf Runtime.Actor Runtime.Lists Runtime.ActorInv Runtime.InvDefs Runtime.Combined.
+From IT Require Import Sdpl.IR Sdpl.Elab Sdpl.Wf Runtime.Actor Runtime.Lists Runtime.ActorInv Runtime.InvDefs Runtime.Combined Runtime.InvUnblock.
 
 Section C03.
 Context {A V : Type} (sem : nat -> A -> list V -> option (A * V)) (sem_slf : nat -> A -> list V -> V) (dv : V).
@@ -45,9 +45,29 @@ Qed.
 Theorem C03_ids_unique : forall (m : model) a0 progs sched, let s := run (elab m) a0 progs sched in
   NoDup (map (fun e => fst (fst e)) (issued s)).
 Proof. intros m a0 progs sched. destruct (Inv_reachable sem sem_slf dv (elab m) a0 progs sched) as (I & _). apply I. Qed.
+(* progress of the reply: when the actor finishes the call it is executing (the user method returns r), r lands in that call's own
+   oneshot and the waiting caller's next step returns exactly r - the execution is recorded once, the actor is idle again *)
+Theorem C03_reply_reaches_waiter : forall (m : model), wf_C03 m = true ->
+  forall s cid k fs rm a a' r t c,
+  alive s = true -> busy s = Some (Msg cid k fs) -> meth (elab m) k = Some rm -> actor s = Some a ->
+  sem (rm_callee rm) a (route dv (rm_args rm) fs) = Some (a', r) ->
+  rm_reply rm = true -> slot_get (slots s) cid = Some SEmpty ->
+  nth_error (clients s) t = Some c -> c_pc c = Waiting cid k ->
+  exists s1 s2 cl, step sem sem_slf dv (elab m) s Ac = Some s1 /\ actor s1 = Some a' /\ busy s1 = None
+    /\ applied s1 = applied s ++ [(cid, rm_callee rm, route dv (rm_args rm) fs, r)]
+    /\ step sem sem_slf dv (elab m) s1 (Cl t) = Some s2 /\ nth_error (clients s2) t = Some cl /\ c_pc cl = Ready
+    /\ c_rets cl = c_rets c ++ [(cid, Returned r)].
+Proof.
+  intros m W s cid k fs rm a a' r t c Al B Hm Ha Hs Rr Sl Hc Hpc.
+  apply (reply_releases_waiter sem sem_slf dv (elab m) s cid k fs rm a a' r t c); auto.
+  unfold wf_C03, wf_C02, wf_C01 in W. apply andb_prop in W. destruct W as [W _]. apply andb_prop in W. destruct W as [W _].
+  apply andb_prop in W. destruct W as [_ O]. unfold replies_own in O. rewrite forallb_forall in O.
+  unfold meth in Hm. specialize (O rm (nth_error_In _ _ Hm)). rewrite Rr in O. exact O.
+Qed.
 End C03.
 
 Print Assumptions C03_exactly_once.
 Print Assumptions C03_same_arguments.
 Print Assumptions C03_own_reply.
 Print Assumptions C03_ids_unique.
+Print Assumptions C03_reply_reaches_waiter.
